@@ -451,3 +451,32 @@ def rule_runnable_exists(ctx):
 
 
 RULES.append(("C13.k", "the runnable_exists predicate covers the wind-down phase", rule_runnable_exists))
+
+
+def rule_state_layout(ctx):
+    """The packed task state word: two flag bits, a reference count and a wake count in disjoint bit fields (every mask-based
+    clause above evaluates conditions with these constants; a layout in which the fields overlap makes them meaningless)."""
+    c = consts(ctx.prog)
+    if any(v is None for v in c.values()):
+        return ctx.missing("task state constants")
+    M = (1 << 64) - 1
+    pop = lambda x: bin(x).count("1")
+    top = lambda m: 1 << (m.bit_length() - 1)
+    checks = [
+        ("flags-are-distinct-single-bits", pop(c["POLLING"]) == 1 and pop(c["CLOSED"]) == 1 and c["POLLING"] != c["CLOSED"]),
+        ("increments-are-powers-of-two-above-the-flags", pop(c["REF_INC"]) == 1 and pop(c["WAKE_INC"]) == 1 and
+         c["REF_INC"] > (c["POLLING"] | c["CLOSED"]) and c["WAKE_INC"] > c["REF_INC"]),
+        ("ref-field", c["REF_MASK"] == ((c["WAKE_INC"] - 1) & ~(c["REF_INC"] - 1)) & M),
+        ("wake-field", c["WAKE_MASK"] == (~(c["WAKE_INC"] - 1)) & M),
+        ("fields-disjoint-and-covering", (c["POLLING"] | c["CLOSED"]) & (c["REF_MASK"] | c["WAKE_MASK"]) == 0 and c["REF_MASK"] & c["WAKE_MASK"] == 0 and
+         (c["REF_MASK"] | c["WAKE_MASK"] | (c["REF_INC"] - 1)) == M),
+        ("overflow-guards-are-half-the-field", c["REF_CRITICAL"] == (c["REF_MASK"] >> 1) & c["REF_MASK"] and
+         c["WAKE_CRITICAL"] == (c["WAKE_MASK"] >> 1) & c["WAKE_MASK"]),
+    ]
+    vals = ", ".join("%s=%#x" % kv for kv in sorted(c.items()))
+    for k, ok in checks:
+        ctx.ob("state-layout|" + k, ok, "task state word layout: " + k.replace("-", " ") + " (" + vals + ")",
+               ["const executor::task::" + n for n in sorted(c)])
+
+
+RULES.append(("C13.l", "layout of the packed task state word", rule_state_layout))
